@@ -532,6 +532,19 @@ def u_c18b():
     return u.finish()
 
 
+def u_c11c():
+    """Address deletion of events whose d tag stands AFTER a tag with fewer than two strings (a NIP-70 "-" marker, an empty
+    tag, a name-only tag): the address is still the first d tag's value, and the deletion has to find the event."""
+    u = Universe("c11c", nauthors=1, nabsent=1)
+    A = 1
+    u.add(A, 30000, 10, [["-"], ["d", "post"]], clen=5)                # 1
+    u.add(A, 5, 20, [["a", ("addr", 30000, A, "post")]], clen=0)       # 2 deletes the address as of 20
+    u.add(A, 30000, 5, [[], ["d", "post"], ["t", "x"]], clen=6)        # 3 older, an empty tag first
+    u.add(A, 30000, 30, [["x"], ["d", "post"]], clen=7)                # 4 newer than the request: stays
+    u.add(A, 30000, 12, [["-"], ["t", "x"], ["d", "other"]], clen=8)   # 5 another address
+    return u.finish()
+
+
 def u_c11b():
     """Deletion requests with several targets where an earlier-listed address is already covered, and addresses
     whose d value contains the ':' separator."""
@@ -641,7 +654,7 @@ def u_exp(now):
     return u.finish()
 
 
-CURATED = dict(c18b=u_c18b, c09d=u_c09d, many=u_many, c09t=u_c09t, c10e=u_c10e, c12y=u_c12y, c14b=u_c14b, c10d=u_c10d, qv=u_qv, c09c=u_c09c, c10c=u_c10c, c16=u_c16, c11b=u_c11b, c12x=u_c12x, c09b=u_c09b, c10b=u_c10b, sz=u_sz, core=u_core, c09=u_c09, c10=u_c10, c11=u_c11, c18=u_c18, q=u_q)
+CURATED = dict(c11c=u_c11c, c18b=u_c18b, c09d=u_c09d, many=u_many, c09t=u_c09t, c10e=u_c10e, c12y=u_c12y, c14b=u_c14b, c10d=u_c10d, qv=u_qv, c09c=u_c09c, c10c=u_c10c, c16=u_c16, c11b=u_c11b, c12x=u_c12x, c09b=u_c09b, c10b=u_c10b, sz=u_sz, core=u_core, c09=u_c09, c10=u_c10, c11=u_c11, c18=u_c18, q=u_q)
 
 
 # ------------------------------------------------------------------------------------------------
